@@ -111,6 +111,27 @@ def r1(ck):
                     why = "bounds the level range: uses of min(..) = %s" % uses
                 ck.require(ok, rule, inst, "the fuzz limit is passed to %s: %s" % (rp, why or "not an allowed use"), fn.where(t), ok_detail=why)
     ck.floor(rule, "uses of the fuzz limit", nuse, 6)
+    # every view is built at a level that was drawn from the level range (normal mode) or recorded in a report (rollback / splice):
+    # a view built at the limit itself would make anchoring and trimming depend on the limit
+    nview = 0
+    scope_fns = [f for f in prog.fns.values() if f.crate == "libpatch" and "::patch::" in f.id and "::unified::" not in f.id]
+    for fn in scope_fns:
+        for bb, t in fn.calls():
+            rp = callee_of(t).get("rpath") or ""
+            if not (rp.endswith("Hunk::<'a, Line>::view") or rp.endswith("HunkView::<'a, 'hunk, Line>::new")):
+                continue
+            nview += 1
+            e = df.operand_expr(fn, t["args"][2])
+            drawn = isinstance(e, tuple) and e[0] == "field" and e[2] == 0 and isinstance(e[1], tuple) and e[1][0] == "downcast" and \
+                e[1][2] == "Some" and df.is_call(e[1][1], "RangeInclusive<A>>::next")
+            recorded = isinstance(e, tuple) and e[0] == "field" and e[2] == "fuzz" and \
+                df.mentions(e, lambda x: isinstance(x, tuple) and x[0] == "downcast" and x[2] == "Applied")
+            forwarded = isinstance(e, tuple) and e[0] == "param" and e[2] == "fuzz" and fn.name in ("view", "new")
+            ck.require(drawn or recorded or forwarded, rule, "level of the view built in %s" % fn.id,
+                       "a HunkView is built at level %s, which is neither the level just drawn from the range nor a recorded per-hunk level: "
+                       "its anchoring/trimming would depend on the fuzz limit" % df.show(e, 100), fn.where(t),
+                       ok_detail="drawn" if drawn else "recorded" if recorded else "forwarded")
+    ck.floor(rule, "HunkView constructions in the engine", nview, 3)
     # the file-level fuzz of a report is read only through its getter, and the getter only by diagnostics
     getter = ck.anchor("libpatch::patch::FilePatchApplyReport::fuzz")
     if getter is not None:
